@@ -121,9 +121,13 @@ def run(chk, tier, seed, replay=None):
     graphs = [g for g in corecheck.export_graphs(chk, 4) if g['n'] >= 1]
     if tier == 'quick':
         corecheck.run_mc(chk, ['Runner_design'])
+        corecheck.run_mc(chk, ['System_q', 'System_asbuilt_q', 'System_dev_skipped_q'], module='System',
+                         expect_violation=['System_dev_skipped_q'])
         n_plain, n_trouble, n_noise = 110, 60, 40
     else:
         corecheck.run_mc(chk, ['Runner_design', 'Runner_deep2'], timeout=3000)
+        corecheck.run_mc(chk, ['System_design', 'System_asbuilt', 'System_dev_skipped'], module='System',
+                         expect_violation=['System_dev_skipped'], timeout=3000)
         n_plain, n_trouble, n_noise = 1500, 700, 500
 
     def opts(r):
